@@ -492,6 +492,33 @@ def check_module(R, m, exe, nvals, nmut, findings):
                 if fbits[:len(pre)] != pre or fbits[len(pre):len(pre) + len(field)] != field:
                     R.fail("uper-framing", m, l, o, {"frame_uper": h, "expected_prefix": pre, "expected_field": field[:200]})
                 else: R.stats["uper_framing_ok"] += 1
+    # chunked (restartable) BER decoding of frames: every 2-split of the DER frame must end like the one-shot call
+    # (the open type getter keeps no state across RC_WMORE: it must report nothing consumed and start over)
+    ders = []
+    for l, o, (kind, row, fsx, syn) in zip(lines, outs, meta):
+        if kind == "rt" and syn == "der" and str(o).startswith("ok ") and RT_RE.search(str(o)) and RT_RE.search(str(o)).group(1) == "ok":
+            h = str(o).split()[1]
+            if h != "-" and len(h) // 2 <= 400 and (l.split()[0], h) not in ders: ders.append((l.split()[0], h))
+    ders = ders[:6 if m.get("light") else 12]
+    cl = []
+    for tp, h in ders:
+        n_ = len(h) // 2
+        cl.append((tp, h, "-"))
+        for cut in range(1, n_): cl.append((tp, h, str(cut)))
+    if cl:
+        couts, _ = run_c(ctx, exe, [f"{tp} decchunks ber {h} {cut}" for tp, h, cut in cl], env=FAST)
+        one = {}
+        fin = re.compile(r"final (\w+) (\d+) (.*)$")
+        for (tp, h, cut), o in zip(cl, couts):
+            mm = fin.search(str(o))
+            if cut == "-" and mm: one[(tp, h)] = mm.groups()
+        for (tp, h, cut), o in zip(cl, couts):
+            if cut == "-" or (tp, h) not in one: continue
+            R.stats["chunked_cases"] += 1
+            mm = fin.search(str(o))
+            if str(o).startswith("CRASH") or not mm or mm.groups() != one[(tp, h)]:
+                R.fail("chunked-ber:differs-from-one-shot", m, f"{tp} decchunks ber {h} {cut}", str(o), {"oneshot": list(one[(tp, h)])})
+            else: ctx.count_nontrivial(("chunked", m["name"], h[:40], cut))
     tick("roundtrip")
     if sum(R.fails.values()) > 150 or ncrash > 40:
         R.stats["modules_cut_short_after_many_failures"] += 1       # a broken tree: the remaining stages only add crashes
